@@ -1,28 +1,29 @@
 // Native replay for C05: real argument_key.cpp / storage.hpp / argument_container.cpp (+ typed_arg_base.cpp, cardinality_max.cpp,
-// linked with --gc-sections), -fno-access-control.   argv: kind  key=<short or ->:<long or ->  ...  [q=<short>:<long>] [abbr=0|1] [spec=<text>]
+// linked with --gc-sections), -fno-access-control.   argv: kind  key=<short or ->:<long or ->  ...  [q=<short>:<long>] [abbr=0|1] [sub=0|1] [spec=<text>]
 //   add : keys are stored in the given order, the LAST key is the one being defined
 //   find: all keys are stored, q is looked up      keyctor: spec text -> expected key=<short>:<long> (or bad=1)
 #include "celma/prog_args/detail/argument_container.hpp"
 #include "celma/prog_args/detail/argument_key.hpp"
 #include "celma/prog_args/detail/typed_arg_base.hpp"
 #include <cstdio>
+#include <cstdlib>
 #include <cstring>
 #include <string>
 #include <vector>
 using namespace celma::prog_args::detail;
 struct Dummy: public TypedArgBase { explicit Dummy(const std::string& n): TypedArgBase(n, ValueMode::none, false) {} bool hasValue() const override { return false; }
   void printValue(std::ostream&, bool) const override {} const std::string varTypeName() const override { return "dummy"; } void assign(const std::string&, bool) override {} };
-struct K { char sh; std::string ln; };
-static K parse(const std::string& a) { size_t c = a.find(':'); K k; std::string s = a.substr(0, c), l = a.substr(c + 1); k.sh = (s == "-") ? 0 : s[0]; k.ln = (l == "-") ? "" : l; return k; }
+struct K { char sh; std::string ln; unsigned fl; };   // fl: bit 0 hidden, 1 deprecated, 3 mandatory (state of the handler stored under the key)
+static K parse(const std::string& a) { size_t c = a.find(':'); K k; std::string s = a.substr(0, c), l = a.substr(c + 1); size_t c2 = l.find(':'); k.fl = 0; if (c2 != std::string::npos) { k.fl = (unsigned)atoi(l.substr(c2 + 1).c_str()); l = l.substr(0, c2); } k.sh = (s == "-") ? 0 : s[0]; k.ln = (l == "-") ? "" : l; return k; }
 static ArgumentKey mk(const K& k) { ArgumentKey a('\0'); a.mChar = k.sh; a.mWord = k.ln; return a; }
-static bool same(const K& a, const K& b) { return (a.sh && a.sh == b.sh) || (!a.ln.empty() && a.ln == b.ln); }
+static bool same(const K& a, const K& b) { return (a.sh && a.sh == b.sh) || (!a.ln.empty() && a.ln == b.ln) || (!a.sh && a.ln.empty() && !b.sh && b.ln.empty()) /* positional */; }
 int main(int argc, char** argv) {
-  if (argc < 2) return 2; std::string kind = argv[1]; std::vector<K> keys; K q{0, ""}; bool abbr = true, bad = false; std::string spec;
-  for (int i = 2; i < argc; ++i) { std::string a = argv[i]; if (a.rfind("key=", 0) == 0) keys.push_back(parse(a.substr(4))); else if (a.rfind("q=", 0) == 0) q = parse(a.substr(2)); else if (a.rfind("abbr=", 0) == 0) abbr = a[5] == '1'; else if (a.rfind("spec=", 0) == 0) spec = a.substr(5); else if (a == "bad=1") bad = true; }
+  if (argc < 2) return 2; std::string kind = argv[1]; std::vector<K> keys; K q{0, "", 0}; bool abbr = true, bad = false, sub = false; std::string spec;
+  for (int i = 2; i < argc; ++i) { std::string a = argv[i]; if (a.rfind("key=", 0) == 0) keys.push_back(parse(a.substr(4))); else if (a.rfind("q=", 0) == 0) q = parse(a.substr(2)); else if (a.rfind("abbr=", 0) == 0) abbr = a[5] == '1'; else if (a.rfind("sub=", 0) == 0) sub = a[4] == '1'; else if (a.rfind("spec=", 0) == 0) spec = a.substr(5); else if (a == "bad=1") bad = true; }
   if (kind == "keyctor") { bool thrown = false; char sh = 0; std::string ln; try { ArgumentKey k(spec); sh = k.mChar; ln = k.mWord; } catch (const std::invalid_argument&) { thrown = true; }
     if (bad ? !thrown : (thrown || keys.empty() || sh != keys[0].sh || ln != keys[0].ln)) { printf("REPRODUCED: ArgumentKey(\"%s\") %s (short '%c', long \"%s\")\n", spec.c_str(), thrown ? "throws" : "yields", sh ? sh : '-', ln.c_str()); return 1; } }
-  else { ArgumentContainer ac(abbr); std::vector<TypedArgBase*> h; size_t n = keys.size(), stored = (kind == "add") ? n - 1 : n;
-    for (size_t i = 0; i < stored; ++i) { h.push_back(new Dummy("d")); try { ac.addArgument(h.back(), mk(keys[i])); } catch (const std::exception&) { printf("NOT-REPRODUCED: the stored keys violate the store invariant\n"); return 0; } }
+  else { ArgumentContainer ac(abbr, sub); /* sub: the container of sub-group arguments */ std::vector<TypedArgBase*> h; size_t n = keys.size(), stored = (kind == "add") ? n - 1 : n;
+    for (size_t i = 0; i < stored; ++i) { h.push_back(new Dummy("d")); h.back()->mIsHidden = (keys[i].fl & 1) != 0; h.back()->mIsDeprecated = (keys[i].fl & 2) != 0; h.back()->mIsMandatory = (keys[i].fl & 8) != 0; try { ac.addArgument(h.back(), mk(keys[i])); } catch (const std::exception&) { printf("NOT-REPRODUCED: the stored keys violate the store invariant\n"); return 0; } }
     if (kind == "add") { bool taken = false; for (size_t i = 0; i + 1 < n; ++i) taken = taken || same(keys[i], keys[n - 1]); bool thrown = false; try { ac.addArgument(new Dummy("n"), mk(keys[n - 1])); } catch (const std::exception&) { thrown = true; }
       if (thrown != taken) { printf("REPRODUCED: definition of key ('%c', \"%s\") is %s although its short/long key is %s\n", keys[n-1].sh ? keys[n-1].sh : '-', keys[n-1].ln.c_str(), thrown ? "refused" : "accepted", taken ? "already taken" : "free"); return 1; } }
     else { int exact = -1, npre = 0, pfx = -1; for (size_t i = 0; i < n; ++i) { if (same(keys[i], q)) exact = (int)i; else if (!q.ln.empty() && keys[i].ln.size() >= q.ln.size() && keys[i].ln.compare(0, q.ln.size(), q.ln) == 0) { ++npre; pfx = (int)i; } }
